@@ -203,7 +203,7 @@ def run_case(case):
         for seq in seqs:
             out["nseq"] += 1
             start = names[0]
-            g = grd.Grid(eta, [None] * nd, h, start, comm, dtype=npdt, allocateSaveMemory=save)
+            g = grd.Grid(eta, [None] * nd, h, start, comm, dtype=npdt, allocateSaveMemory=(save, int(save), np.bool_(save))[out["nseq"] % 3])   # the flag as bool, int, numpy bool
             m = Model(shape, dtype, start)
             m.G = field(0)
             g.getAllData()[:] = lo.expected_block(m.G, h.getLayout(start))
